@@ -42,7 +42,9 @@ ClassAttr == N("attr", "ca", {"static"}, <<>>)
 ClassAttrC == N("attr", "ca", {"static", "chained"}, <<>>)
 CtorD == N("func", "__init__", {"ctor"}, << Param("self"), Param("x"), N("attr", "ia", {"deep"}, <<>>), N("attr", "_ib", {}, <<>>) >>)
 Redef(f) == [f EXCEPT !.flags = f.flags \cup {"redefined"}]
-Earlier(f) == [f EXCEPT !.flags = (f.flags \ {"redefined"}) \cup {"earlier"}, !.ch = (IF f.ch # <<>> /\ f.ch[1].name = "self" THEN << Param("self") >> ELSE <<>>) \o << Param("zold") >>]
+\* a class defined twice: the earlier definition has an attribute zattr and a method zmeth that the later one lacks
+EarlierClass(c) == N("class", c.name, {"earlier"}, << N("attr", "zattr", {"static"}, <<>>), N("func", "zmeth", {}, << Param("self") >>) >>)
+Earlier(f) == IF f.k = "class" THEN EarlierClass(f) ELSE [f EXCEPT !.flags = (f.flags \ {"redefined"}) \cup {"earlier"}, !.ch = (IF f.ch # <<>> /\ f.ch[1].name = "self" THEN << Param("self") >> ELSE <<>>) \o << Param("zold") >>]
 EnumN(name, n) == N("enum", name, {}, [ j \in 1..n |-> N("inst", IF j = 1 THEN "AA" ELSE "BB", {}, <<>>) ])
 
 InnerKinds == {"none", "class", "class2", "privclass", "enum"}
@@ -79,7 +81,7 @@ EnumsB == { EnumB("SCol", 2, "StrEnum"), EnumB("FCol", 2, "Flag"), EnumB("GCol",
 
 Unusual == { N("func", "fun", {"redefined"}, << Param("a"), Param("b"), Res >>), N("func", "noargs", {"redefined"}, <<>>),
              N("class", "Cls", {"super-none"}, << ClassAttrC, CtorD, Redef(Method("inst")), Method("static") >>),
-             N("class", "Cls", {"super-none"}, << ClassAttr, CtorD >>), N("class", "Cls", {"super-none"}, << ClassAttrC, Redef(Method("static")) >>) }
+             N("class", "Cls", {"super-none"}, << ClassAttr, CtorD >>), N("class", "Cls", {"super-none", "redefined"}, << ClassAttr, Ctor, Method("inst") >>), N("class", "Cls", {"super-none"}, << ClassAttrC, Redef(Method("static")) >>) }
 Modules(tier) ==
   { N("module", "m", {}, << x >>) : x \in Classes(tier) \cup Funcs \cup Enums \cup EnumsB \cup Unusual }
   \cup { N("module", "m", {}, << x, y >>) : x \in { u \in Unusual : u.k = "func" }, y \in { u \in Unusual : u.k = "class" } }
@@ -120,10 +122,12 @@ Step ==
      IN IF e[1] = "enter"
         THEN LET id == IF n.k = "attr" THEN IdSkippingCtor(stack, n.name) ELSE IdOf(stack, IF n.k = "module" THEN "pkg/" \o n.name ELSE n.name)
                  kids == { [kind |-> c.k, id |-> id \o "/" \o c.name] : c \in { e[3][j] : j \in { j \in 1..Len(e[3]) : e[3][j].k \in {"param", "result"} } } }
-                 stale == IF "redefined" \in n.flags THEN { [kind |-> "param", id |-> id \o "/zold"] } ELSE {}     \* what only the earlier definition had
+                 stale == IF "redefined" \notin n.flags THEN {}      \* what only the earlier definition had
+                          ELSE IF n.k = "class" THEN { [kind |-> "attr", id |-> id \o "/zattr"], [kind |-> "func", id |-> id \o "/zmeth"], [kind |-> "param", id |-> id \o "/zmeth/self"] }
+                          ELSE { [kind |-> "param", id |-> id \o "/zold"] }
              IN /\ stack' = Append(stack, [id |-> id, name |-> n.name, k |-> n.k])
                 /\ api' = (api \ stale) \cup kids
-                /\ owns' = (owns \ { <<id, c.id>> : c \in stale }) \cup { <<id, c.id>> : c \in kids }
+                /\ owns' = { o \in owns : \A c \in stale : o[2] # c.id } \cup { <<id, c.id>> : c \in kids }
         ELSE LET top == stack[Len(stack)]
                  rest == SubSeq(stack, 1, Len(stack) - 1)
                  ownerIdx == IF top.k = "attr" /\ rest # <<>> /\ rest[Len(rest)].name = "__init__" THEN Len(rest) - 1 ELSE Len(rest)
@@ -136,7 +140,7 @@ Spec == Init /\ [][Next]_vars /\ WF_vars(Next)
 Done == ev > Len(Events(mod))
 
 Inv_C12_NoStale == Done => \A a \in api : \A o \in owns : o[2] = a.id => \E b \in api : b.id = o[1]
-Inv_C12_LaterWins == Done => ~\E a \in api : a.kind = "param" /\ \E o \in owns : o[2] = a.id /\ a.id = o[1] \o "/zold"
+Inv_C12_LaterWins == Done => ~\E a \in api : \E o \in owns : o[2] = a.id /\ a.id \in { o[1] \o "/zold", o[1] \o "/zattr", o[1] \o "/zmeth" }
 Inv_C12_Balanced == Done => stack = <<>>
 Inv_C12_NoDup == \A a, b \in api : a.id = b.id => a = b
 Inv_C12_OneOwner == Done => \A a \in api : a.kind # "module" => Cardinality({ o \in owns : o[2] = a.id }) = 1
